@@ -121,7 +121,8 @@ def chainSwap : List Searcher → List Searcher
 /-- a change made IN PLACE to the table package.loaders holds: it reaches the registry's table only while that
     is the same table. -/
 def inPlace (st : St) (f : List Searcher → List Searcher) : St :=
-  if st.detached then { st with sChain := f st.sChain }
+  -- /repo c0d2d09 (fix: require reads package.loaders on every call): the Model's chain follows the field, too
+  if st.detached then { st with sChain := f st.sChain, mChain := f st.mChain }
   else { st with sChain := f st.sChain, sOrig := f st.sOrig, mChain := f st.mChain }
 
 /-- apply a state-only op to both states -/
@@ -193,9 +194,9 @@ def handle (st : St) (ws : List String) : St × Verdict :=
     | none => (st, { model := some "bad-searcher" })
   | ["ldnew", toks] =>
     match parseChain toks with
-    | some c => ({ st with sChain := c, detached := true }, ok)
+    | some c => ({ st with sChain := c, mChain := c, detached := true }, ok)
     | none => (st, { model := some "bad-searcher" })
-  | ["ldrestore"] => ({ st with sChain := st.sOrig, detached := false }, ok)
+  | ["ldrestore"] => ({ st with sChain := st.sOrig, mChain := st.sOrig, detached := false }, ok)
   | ["preload", n, b] =>
     match parseBeh b with
     | some b => (both st (fun s => { s with preload := upd s.preload n (some { src := .lua, key := n, beh := b }) }), ok)
@@ -217,9 +218,9 @@ def handle (st : St) (ws : List String) : St × Verdict :=
     -- known finding C20-loaders-replaced: a table ASSIGNED to package.loaders is what the reference iterates over,
     -- gopher-lua keeps iterating over the table in the registry. Recognised only when the Model reproduces the
     -- implementation and the two chains really differ; the Spec then continues from the implementation's state.
-    let kf := got ≠ es ∧ got = em ∧ st.detached ∧ st.sChain ≠ st.mChain
-    let spec := if kf then some ("KF:C20-loaders-replaced require " ++ n ++ " spec=" ++ es)
-                else if got ≠ es then some ("require " ++ n ++ " spec=" ++ es)
+    -- (FIXED in /repo c0d2d09: no longer tagged, a recurrence is an ordinary violation)
+    let kf := false
+    let spec := if got ≠ es then some ("require " ++ n ++ " spec=" ++ es)
                 else mon.map ("monitor: " ++ ·)
     ({ st with m := rm.1, sp := if kf then rm.1 else rs.1, cache := c' }, { model := cmpModel em impl, spec := spec })
   | ["register", n, f] =>
